@@ -546,45 +546,45 @@ func rulePipePublish(c *Ctx, r *R) {
 			scan = append(scan, fr.f)
 		}
 		for _, sf := range scan {
-		sf := sf
-		instrs(sf, func(b *ssa.BasicBlock, i int, in ssa.Instruction) {
-			ld, ok := in.(*ssa.UnOp)
-			if !ok || ld.Op != token.MUL {
-				return
-			}
-			inner, ok := ld.X.(*ssa.UnOp)
-			if !ok || inner.Op != token.MUL || !strings.HasSuffix(path(inner.X), ".senderErr") {
-				return
-			}
-			nreads++
-			_, judgedLocally := ownBodies[sf]
-			dom := sf != fn && !judgedLocally // inside a helper that is only reachable from a senderDone arm
-			for _, bb := range bodies {
-				if sf == fn && bb.Dominates(b) {
-					dom = true
+			sf := sf
+			instrs(sf, func(b *ssa.BasicBlock, i int, in ssa.Instruction) {
+				ld, ok := in.(*ssa.UnOp)
+				if !ok || ld.Op != token.MUL {
+					return
 				}
-			}
-			for _, bb := range ownBodies[sf] {
-				if bb.Dominates(b) {
-					dom = true
+				inner, ok := ld.X.(*ssa.UnOp)
+				if !ok || inner.Op != token.MUL || !strings.HasSuffix(path(inner.X), ".senderErr") {
+					return
 				}
-			}
-			key := name + "|read-senderErr#" + itoa(nreads)
-			if !r.ok(dom, key, ld.Pos(), "*senderErr is read outside an arm that observed senderDone closed (data race with Close, and a stale value)") {
-				return
-			}
-			// what is read is what is reported: every return in blocks dominated by this read that carries a
-			// non-constant error carries this value; and a return of it exists
-			found := false
-			if ld.Referrers() != nil {
-				for _, ref := range *ld.Referrers() {
-					if ret, ok := ref.(*ssa.Return); ok && ret.Results[len(ret.Results)-1] == ssa.Value(ld) {
-						found = true
+				nreads++
+				_, judgedLocally := ownBodies[sf]
+				dom := sf != fn && !judgedLocally // inside a helper that is only reachable from a senderDone arm
+				for _, bb := range bodies {
+					if sf == fn && bb.Dominates(b) {
+						dom = true
 					}
 				}
-			}
-			r.ok(found, name+"|return-senderErr#"+itoa(nreads), ld.Pos(), "the error read from *senderErr is not the error operand of a return: the sender's close error would be replaced or dropped")
-		})
+				for _, bb := range ownBodies[sf] {
+					if bb.Dominates(b) {
+						dom = true
+					}
+				}
+				key := name + "|read-senderErr#" + itoa(nreads)
+				if !r.ok(dom, key, ld.Pos(), "*senderErr is read outside an arm that observed senderDone closed (data race with Close, and a stale value)") {
+					return
+				}
+				// what is read is what is reported: every return in blocks dominated by this read that carries a
+				// non-constant error carries this value; and a return of it exists
+				found := false
+				if ld.Referrers() != nil {
+					for _, ref := range *ld.Referrers() {
+						if ret, ok := ref.(*ssa.Return); ok && ret.Results[len(ret.Results)-1] == ssa.Value(ld) {
+							found = true
+						}
+					}
+				}
+				r.ok(found, name+"|return-senderErr#"+itoa(nreads), ld.Pos(), "the error read from *senderErr is not the error operand of a return: the sender's close error would be replaced or dropped")
+			})
 		}
 		if nreads == 0 {
 			r.violated(name+"|read-senderErr", fn.Pos(), "no read of *senderErr: the sender's close error can never be reported")
@@ -603,19 +603,19 @@ func rulePipePublish(c *Ctx, r *R) {
 			}
 		}
 		for _, ef := range endFns {
-		instrs(ef, func(b *ssa.BasicBlock, i int, in ssa.Instruction) {
-			ret, ok := in.(*ssa.Return)
-			if !ok || len(ret.Results) != 2 {
-				return
-			}
-			if strings.HasSuffix(path(ret.Results[1]), "End") {
-				for _, g := range guardsOf(b) {
-					if cf, ok := g.asCmp(); ok && cf.op == token.EQL && isNilConst(cf.y) && strings.HasSuffix(path(cf.x), ".senderErr") {
-						okEnd = true
+			instrs(ef, func(b *ssa.BasicBlock, i int, in ssa.Instruction) {
+				ret, ok := in.(*ssa.Return)
+				if !ok || len(ret.Results) != 2 {
+					return
+				}
+				if strings.HasSuffix(path(ret.Results[1]), "End") {
+					for _, g := range guardsOf(b) {
+						if cf, ok := g.asCmp(); ok && cf.op == token.EQL && isNilConst(cf.y) && strings.HasSuffix(path(cf.x), ".senderErr") {
+							okEnd = true
+						}
 					}
 				}
-			}
-		})
+			})
 		}
 		r.ok(okEnd, "stream.pipeStream.Next|end-iff-nil", nx.Pos(), "End must be reported exactly on the path where the sender's close error is nil")
 	}
